@@ -426,10 +426,10 @@ fn format_type_layout(
     if let Some((last, main)) = ty.1.split_last() {
         output.push('<');
         for param in main {
-            format_expression_or_type(param, output, context)?;
+            format_template_argument(param, output, context)?;
             output.push_str(", ");
         }
-        format_expression_or_type(last, output, context)?;
+        format_template_argument(last, output, context)?;
         output.push('>');
     }
     Ok(())
@@ -601,6 +601,22 @@ fn format_expression_or_type(
     match value {
         ast::ExpressionOrType::Expression(expr) | ast::ExpressionOrType::Either(expr, _) => {
             format_list_expression(expr, output, context)
+        }
+        ast::ExpressionOrType::Type(ty) => format_type_id(ty, output, context),
+    }
+}
+
+/// Format an expression or type that is an argument in a template argument list
+fn format_template_argument(
+    value: &ast::ExpressionOrType,
+    output: &mut String,
+    context: &mut FormatContext,
+) -> Result<(), FormatError> {
+    match value {
+        ast::ExpressionOrType::Expression(expr) | ast::ExpressionOrType::Either(expr, _) => {
+            // A shift, a comparison or anything that binds looser could end the argument list early with its >
+            // So only expressions that bind at least as tight as + and - are written without parenthesis
+            format_subexpression(expr, 6, OperatorSide::Middle, output, context)
         }
         ast::ExpressionOrType::Type(ty) => format_type_id(ty, output, context),
     }
@@ -1252,10 +1268,10 @@ fn format_template_type_args(
     if let Some((ta_last, ta_main)) = template_args.split_last() {
         output.push('<');
         for ta in ta_main {
-            format_expression_or_type(ta, output, context)?;
+            format_template_argument(ta, output, context)?;
             output.push_str(", ");
         }
-        format_expression_or_type(ta_last, output, context)?;
+        format_template_argument(ta_last, output, context)?;
         output.push('>');
     }
     Ok(())
